@@ -469,3 +469,29 @@ func (fr *Frame) devirtualize(recv *Term, c *ssa.CallCommon) (*ssa.Function, *Te
 	}
 	return fn, v
 }
+
+// heapAllocRoot: the heap Alloc an address is an interior pointer of (&x, &x.f, &x.f.g, &x.arr[i]), or nil.
+func heapAllocRoot(v ssa.Value) *ssa.Alloc {
+	for {
+		switch x := v.(type) {
+		case *ssa.Alloc:
+			if x.Heap {
+				return x
+			}
+			return nil
+		case *ssa.FieldAddr:
+			v = x.X
+		case *ssa.IndexAddr:
+			pt, ok := types.Unalias(x.X.Type()).Underlying().(*types.Pointer)
+			if !ok {
+				return nil
+			}
+			if _, ok := types.Unalias(pt.Elem()).Underlying().(*types.Array); !ok {
+				return nil
+			}
+			v = x.X
+		default:
+			return nil
+		}
+	}
+}
